@@ -79,15 +79,15 @@ func (w *wireWorld) genQos(stream string) *pairingtypes.QualityOfServiceReport {
 func (w *wireWorld) genSession(pd *pairingtypes.RelayPrivateData) *pairingtypes.RelaySession {
 	r := w.r
 	s := &pairingtypes.RelaySession{
-		SpecId:      []string{"LAV1", "ETH1", ""}[r.Draw("ops", 3)],
-		ContentHash: sigs.HashMsg(pd.GetContentHashData()),
-		SessionId:   uint64(r.Draw("ops", 5)) + r.Draw64("ops")%3*1000,
-		CuSum:       uint64(r.Draw("ops", 1000)),
-		Provider:    w.provider.Addr.String(),
-		RelayNum:    uint64(r.Draw("ops", 50)),
-		QosReport:   w.genQos("ops"),
-		Epoch:       int64(r.Draw("ops", 5000)),
-		LavaChainId: []string{"lava", "lava-testnet-2"}[r.Draw("ops", 2)],
+		SpecId:              []string{"LAV1", "ETH1", ""}[r.Draw("ops", 3)],
+		ContentHash:         sigs.HashMsg(pd.GetContentHashData()),
+		SessionId:           uint64(r.Draw("ops", 5)) + r.Draw64("ops")%3*1000,
+		CuSum:               uint64(r.Draw("ops", 1000)),
+		Provider:            w.provider.Addr.String(),
+		RelayNum:            uint64(r.Draw("ops", 50)),
+		QosReport:           w.genQos("ops"),
+		Epoch:               int64(r.Draw("ops", 5000)),
+		LavaChainId:         []string{"lava", "lava-testnet-2"}[r.Draw("ops", 2)],
 		QosExcellenceReport: w.genQos("ops"),
 	}
 	for i, n := 0, r.Draw("ops", 3); i < n; i++ {
@@ -711,13 +711,15 @@ func init() {
 	real := []string{"utils/sigs (Sign, RecoverPubKey, ExtractSignerAddress, HashMsg)", "x/pairing/types RelaySession/RelayExchange.DataToSign, RelayPrivateData.GetContentHashData", "protocol/lavaprotocol NewRelayData, SignRelayResponse, VerifyRelayReply, UpdateRequestedBlock", "gogoproto marshal/unmarshal as the wire"}
 	stub := []string{"transport (in-memory, corrupting)", "consumer session / QoS managers (session fields drawn from the tape)", "provider's other request checks (only the content-hash comparison of verifyRelayRequestMetaData is reproduced)"}
 	simrt.Register("C25", &simrt.PropSpec{Fn: runC25,
-		NonTrivial: func(r *simrt.Run) bool { return r.Ops["request:ok"] >= 1 && r.Ops["reply:ok"] >= 1 && r.FaultsFired() >= 2 },
-		Rule:       "a consumer builds and signs relay sessions (real builders, fields from the tape), a provider signs replies; every message crosses a corrupting transport (marshal -> fault -> unmarshal): single-field mutation of each signed and unsigned field, bit flips in the wire bytes, duplication, replies checked against requests differing in one field or only in the salt. Verification order is a per-run knob: in half of the runs the receiver first verifies the genuine object (request at the provider, reply at the consumer) and only then what the transport delivers, so that a tampered copy carrying the genuine signature meets a verifier that has already accepted the genuine one; in the other half the delivered (possibly tampered) object is the only thing verified under its signature. The simulation dimension is thin (two parties + corrupting transport); field values are ordinary generated inputs. Non-trivial = at least one clean request and reply verified and >=2 faults fired; distinct = (op,outcome,fault) sequence hash",
-		Real:       real, Stubbed: stub,
-		Assume:     []string{"'signed fields' are the ones the statement lists; the canonical comparison is length-prefixed per field", "the consumer applies UpdateRequestedBlock before verifying, as rpcconsumer_server.go does", "worker processes execute many runs (and shrink re-executions of one run): state the code under test keeps per process is shared between them; in genuine-first runs the first verification under every signature is the genuine one in every execution, which makes their verdicts independent of that history (their violation signatures carry the suffix :after-genuine-verified)"}})
+		NonTrivial: func(r *simrt.Run) bool {
+			return r.Ops["request:ok"] >= 1 && r.Ops["reply:ok"] >= 1 && r.FaultsFired() >= 2
+		},
+		Rule: "a consumer builds and signs relay sessions (real builders, fields from the tape), a provider signs replies; every message crosses a corrupting transport (marshal -> fault -> unmarshal): single-field mutation of each signed and unsigned field, bit flips in the wire bytes, duplication, replies checked against requests differing in one field or only in the salt. Verification order is a per-run knob: in half of the runs the receiver first verifies the genuine object (request at the provider, reply at the consumer) and only then what the transport delivers, so that a tampered copy carrying the genuine signature meets a verifier that has already accepted the genuine one; in the other half the delivered (possibly tampered) object is the only thing verified under its signature. The simulation dimension is thin (two parties + corrupting transport); field values are ordinary generated inputs. Non-trivial = at least one clean request and reply verified and >=2 faults fired; distinct = (op,outcome,fault) sequence hash",
+		Real: real, Stubbed: stub,
+		Assume: []string{"'signed fields' are the ones the statement lists; the canonical comparison is length-prefixed per field", "the consumer applies UpdateRequestedBlock before verifying, as rpcconsumer_server.go does", "worker processes execute many runs (and shrink re-executions of one run): state the code under test keeps per process is shared between them; in genuine-first runs the first verification under every signature is the genuine one in every execution, which makes their verdicts independent of that history (their violation signatures carry the suffix :after-genuine-verified)"}})
 	simrt.Register("C26", &simrt.PropSpec{Fn: runC26,
 		NonTrivial: func(r *simrt.Run) bool { return r.Ops["pair:ok"]+r.Ops["pair:known_collision"] >= 5 },
 		Rule:       "pairs of relay private data that differ in one hashed field, or by moving 1-2 bytes across the boundary of two adjacent hashed fields (metadata name/value, metadata/extensions, extension/extension, extensions/addon, addon/api interface, api interface/connection type, connection type/url, url/data, data..salt through the fixed-width block fields, splitting one extension or metadata entry in two); the variant travels with the session signed for the original and the provider's content-hash check decides. Thin simulation dimension (replay of a signed session with different private data over the transport); the pairs are ordinary generated inputs. Non-trivial = >=5 differing pairs compared; distinct = (op,outcome,fault) sequence hash",
 		Real:       real, Stubbed: stub,
-		Assume:     []string{"hashed fields are those the statement lists"}})
+		Assume: []string{"hashed fields are those the statement lists"}})
 }
